@@ -294,7 +294,7 @@ fn project_facts(state: &State) -> (Value, Value) {
                               "entry": d(p.price_entry_average), "pnl_realised": d(p.pnl_realised),
                               "fees_enter": d(p.fees_enter.fees), "fees_exit": d(p.fees_exit.fees), "trades": p.trades.len()}),
         };
-        positions.push(json!({"instrument": name.to_string(), "position": cur, "orders_tracked": is.orders.0.len()}));
+        positions.push(json!({"instrument": name.to_string(), "position": cur}));
         pnl.push(json!({"instrument": name.to_string(), "closed_pnl": d(is.tear_sheet.pnl_returns.pnl_raw),
                         "closed_positions": is.tear_sheet.pnl_returns.total.count.to_string()}));
     }
@@ -678,24 +678,27 @@ fn plan(seed: u64, tier: &str) -> Vec<Value> {
     let thorough = tier == "thorough";
     let mut out = vec![];
     let mut name = 0;
-    let mut push = |v: Value| {
-        out.push(v);
+    // (dataset size, [(K, workers)]) - the cost of validating a run's log grows with n^2
+    let gated: Vec<(usize, Vec<(usize, usize)>)> = if thorough {
+        vec![
+            (50, vec![(2, 1), (2, 16), (8, 2), (8, 4), (32, 1), (32, 4), (32, 16)]),
+            (200, vec![(2, 2), (8, 1), (8, 16), (32, 2), (32, 4)]),
+            (500, vec![(2, 4), (8, 2), (32, 16)]),
+            (2000, vec![(2, 2), (8, 4)]),
+        ]
+    } else {
+        vec![(50, vec![(2, 1), (2, 4), (8, 2)]), (200, vec![(2, 2), (8, 1), (8, 4)]), (500, vec![(8, 2)])]
     };
-    // ---- gated: fills / positions / balances / PnL comparable --------------------------------
-    let ks: &[usize] = if thorough { &[2, 8, 32] } else { &[2, 8] };
-    let ws: &[usize] = if thorough { &[1, 2, 4, 16] } else { &[1, 2, 4] };
-    let sizes: &[usize] = if thorough { &[50, 200, 500, 2000] } else { &[50, 200, 500] };
-    let datasets = if thorough { 4 } else { 2 };
-    for dsi in 0..datasets {
-        let n = sizes[dsi % sizes.len()];
+    for (dsi, (n, grid)) in gated.iter().enumerate() {
+        let n = *n;
         let data_seed = seed * 1000 + dsi as u64;
-        // shared decision points (never a Reconnecting item, never before event 2)
         let mut recs: Vec<u32> = (0..(1 + n / 100)).map(|_| rng.random_range(3..=n as u32)).collect();
         recs.sort();
         recs.dedup();
+        // shared decision points (never a Reconnecting item)
         let mut points: Vec<u32> = vec![];
         while points.len() < 6 {
-            let k = rng.random_range(2..=n as u32);
+            let k = rng.random_range(1..=n as u32);
             if !recs.contains(&k) && !points.contains(&k) {
                 points.push(k);
             }
@@ -706,65 +709,56 @@ fn plan(seed: u64, tier: &str) -> Vec<Value> {
             points[0] = n as u32;
         }
         points.sort();
-        let kmax = *ks.iter().max().unwrap();
-        let variants: Vec<Value> = (0..kmax).map(|_| random_acts(&mut rng, &points, 4)).collect();
+        let kmax = grid.iter().map(|g| g.0).max().unwrap();
+        let variants: Vec<Value> = (0..kmax).map(|_| random_acts(&mut rng, &points, 5)).collect();
         let latency = if dsi % 2 == 0 { 0 } else { 2 };
         // every parameter set alone
         for (vi, v) in variants.iter().enumerate() {
             name += 1;
-            push(json!({"name": format!("g{name}"), "mode": "gated", "workers": 1, "n": n, "data_seed": data_seed, "recs": recs,
-                        "points": points, "latency_ms": latency, "alone": true, "runs": [{"variant": vi, "acts": v}]}));
+            out.push(json!({"name": format!("g{name}"), "mode": "gated", "workers": 1, "n": n, "data_seed": data_seed, "recs": recs,
+                            "points": points, "latency_ms": latency, "alone": true, "runs": [{"variant": vi, "acts": v}]}));
         }
-        for (ci, k) in ks.iter().enumerate() {
-            for (wi, w) in ws.iter().enumerate() {
-                // quick: not the whole K x workers grid for every dataset
-                if !thorough && (ci + wi + dsi) % 2 == 1 {
-                    continue;
-                }
-                if thorough && *k == 32 && n > 500 {
-                    continue;
-                }
-                name += 1;
-                // rotate so that argument order differs between scenarios
-                let runs: Vec<Value> = (0..*k).map(|r| { let vi = (r + ci + wi) % kmax; json!({"variant": vi, "acts": variants[vi]}) }).collect();
-                push(json!({"name": format!("g{name}"), "mode": "gated", "workers": w, "n": n, "data_seed": data_seed, "recs": recs,
+        for (gi, (k, w)) in grid.iter().enumerate() {
+            name += 1;
+            // rotate so that argument order differs between scenarios
+            let runs: Vec<Value> = (0..*k).map(|r| { let vi = (r + gi) % kmax; json!({"variant": vi, "acts": variants[vi]}) }).collect();
+            out.push(json!({"name": format!("g{name}"), "mode": "gated", "workers": w, "n": n, "data_seed": data_seed, "recs": recs,
                             "points": points, "latency_ms": latency, "alone": false, "runs": runs}));
-            }
         }
     }
     // ---- in-memory (the repository's MarketDataInMemory): consumption clauses only ------------
-    let ks: &[usize] = if thorough { &[1, 2, 8, 32] } else { &[1, 2, 8] };
-    let sizes: &[usize] = if thorough { &[50, 500, 2000, 2000] } else { &[50, 2000, 500] };
-    for (dsi, n) in sizes.iter().enumerate() {
+    let inmem: Vec<(usize, Vec<(usize, usize)>)> = if thorough {
+        vec![
+            (50, vec![(1, 1), (2, 2), (8, 4), (32, 1), (32, 16)]),
+            (500, vec![(1, 4), (2, 1), (8, 16), (32, 2), (32, 4)]),
+            (1000, vec![(8, 1), (32, 4), (32, 16)]),
+            (2000, vec![(1, 1), (2, 16), (8, 2), (8, 4)]),
+        ]
+    } else {
+        vec![(50, vec![(1, 1), (2, 4), (8, 2), (8, 1)]), (500, vec![(1, 2), (2, 1), (8, 4)]), (2000, vec![(1, 4), (2, 2)])]
+    };
+    for (dsi, (n, grid)) in inmem.iter().enumerate() {
         let n = *n;
         let data_seed = seed * 1000 + 500 + dsi as u64;
         let mut recs: Vec<u32> = (0..(1 + n / 100)).map(|_| rng.random_range(2..=n as u32)).collect();
         recs.sort();
         recs.dedup();
         let all: Vec<u32> = (1..=n as u32).filter(|k| !recs.contains(k)).collect();
-        for (ci, k) in ks.iter().enumerate() {
-            for (wi, w) in ws.iter().enumerate() {
-                if !thorough && (ci + wi + dsi) % 3 != 0 {
-                    continue;
-                }
-                if thorough && *k == 32 && n > 500 && *w != 4 {
-                    continue;
-                }
-                name += 1;
-                let runs: Vec<Value> = (0..*k)
-                    .map(|r| {
-                        // orders anywhere, including the first and the very last event
-                        let mut pts: Vec<u32> = (0..5).map(|_| all[rng.random_range(0..all.len())]).collect();
-                        if r % 3 == 0 { pts.push(*all.last().unwrap()); }
-                        if r % 4 == 1 { pts.push(all[0]); }
-                        pts.sort();
-                        pts.dedup();
-                        json!({"variant": r, "acts": random_acts(&mut rng, &pts, 6)})
-                    })
-                    .collect();
-                push(json!({"name": format!("m{name}"), "mode": "inmem", "workers": w, "n": n, "data_seed": data_seed, "recs": recs,
-                            "points": [], "latency_ms": if (ci + wi) % 2 == 0 { 0 } else { 1 }, "alone": *k == 1, "runs": runs}));
-            }
+        for (gi, (k, w)) in grid.iter().enumerate() {
+            name += 1;
+            let runs: Vec<Value> = (0..*k)
+                .map(|r| {
+                    // orders anywhere, including the first and the very last event
+                    let mut pts: Vec<u32> = (0..5).map(|_| all[rng.random_range(0..all.len())]).collect();
+                    if r % 3 == 0 { pts.push(*all.last().unwrap()); }
+                    if r % 4 == 1 { pts.push(all[0]); }
+                    pts.sort();
+                    pts.dedup();
+                    json!({"variant": r, "acts": random_acts(&mut rng, &pts, 6)})
+                })
+                .collect();
+            out.push(json!({"name": format!("m{name}"), "mode": "inmem", "workers": w, "n": n, "data_seed": data_seed, "recs": recs,
+                            "points": [], "latency_ms": gi % 2, "alone": *k == 1, "runs": runs}));
         }
     }
     out
@@ -842,7 +836,7 @@ fn run_scenario(scn: &Value, trace: &mut Out, results: &mut Out, totals: &mut Va
     let outcome: Result<Result<Result<Vec<BacktestSummary<Daily>>, String>, ()>, String> = if gated {
         let md = GatedMarketData {
             events: events.clone(),
-            time_first: time(60),
+            time_first: events.iter().find_map(|e| match e { MarketStreamEvent::Item(e) => Some(e.time_exchange), _ => None }).unwrap_or(time(0)),
             gates: Arc::new(points.clone()),
             slots: rxs,
             next: AtomicUsize::new(0),
